@@ -86,6 +86,18 @@ def strat_ops(draw, tier, faults):
         elif kind in ("read", "conn_read"):
             op.update(addr=addr, n=draw(st.one_of(st.integers(0, 12),
                                                   st.integers(0, maxlen))))
+        if kind in ("write", "conn_write", "read", "conn_read") and \
+                draw(st.integers(0, 9)) == 0:
+            # the ends of the 32-bit address space: a block that ends with
+            # the last byte (or a little below it), a block at address 0
+            ln = len(base64.b64decode(op["data"])) if "data" in op \
+                else op["n"]
+            top = (1 << 32) - draw(st.sampled_from([0, 0, 0, 1, 4, 3]))
+            # (an empty block still starts at an address of 32 bits)
+            high = min(0xffffffff, max(0, top - ln))
+            op["addr"] = draw(st.sampled_from([high, high, 0, 1]))
+        if kind in ("write", "conn_write", "read", "conn_read"):
+            pass
         elif kind == "fill":
             op.update(addr=addr, n=draw(st.one_of(
                 st.integers(0, 64), st.integers(0, 16).map(lambda k: 4 * k),
